@@ -487,8 +487,31 @@ def truth_value(I, st, v, frame, node=None):
             elems = st.seqs[v.oid]
             if not elems:
                 return [(st, False)]
-            if any(not isinstance(x, Star) or x.nonempty for x in elems):
+            opts = [x for x in elems if type(x).__name__ == 'Opt']
+            if any((not isinstance(x, Star) and type(x).__name__ != 'Opt') or (isinstance(x, Star) and x.nonempty) for x in elems):
                 return [(st, True)]
+            if opts:
+                # elements that are only there when a decision key has one of the allowed values (words of a command):
+                # the list is non-empty as soon as one of them is present
+                from .loops import PSTATUS
+                out = []
+                cur = [st]
+                for o in opts:
+                    nxt = []
+                    for s1 in cur:
+                        for (s2, there) in I.decide(s1, o.key_, PSTATUS, o.allowed):
+                            if there:
+                                out.append((s2, True))
+                            else:
+                                nxt.append(s2)
+                    cur = nxt
+                stars = [x for x in elems if isinstance(x, Star)]
+                for s1 in cur:
+                    if stars:
+                        out.extend(I.decide(s1, ('nonempty', tuple(x.tag for x in stars)), BOOL, frozenset([True])))
+                    else:
+                        out.append((s1, False))
+                return out
             return I.decide(st, ('nonempty', tuple(x.tag for x in elems)), BOOL, frozenset([True]))
         if v.oid in st.maps:
             items = st.maps[v.oid]
@@ -532,6 +555,14 @@ def boolop_value(I, st, env, e, frame):
 _WANT = {ast.Lt: (-1,), ast.Gt: (1,), ast.Eq: (0,), ast.NotEq: (-1, 1), ast.LtE: (-1, 0), ast.GtE: (0, 1)}
 
 
+def _is_nan(I, p):
+    """the polynomial involves a symbol declared not-a-number (directly or as the argument of a function application)"""
+    for sname in p.symbols():
+        if sname in I.nan_symbols or (I.symdeps(sname) & I.nan_symbols):
+            return True
+    return False
+
+
 def compare(I, st, a, op, b, frame, node=None):
     where = (frame.qual(), getattr(node, 'lineno', 0))
     if isinstance(op, (ast.Is, ast.IsNot)):
@@ -546,6 +577,9 @@ def compare(I, st, a, op, b, frame, node=None):
     if isinstance(op, (ast.In, ast.NotIn)):
         pos = isinstance(op, ast.In)
         return [(s, r if isinstance(r, Raised) else (r == pos)) for (s, r) in contains(I, st, b, a, frame, node)]
+    if getattr(I, 'nan_symbols', None) and isinstance(a, Num) and isinstance(b, Num) and (_is_nan(I, a.p) or _is_nan(I, b.p)):
+        # IEEE: every ordering / equality comparison with a NaN operand is False, only != is True
+        return [(st, isinstance(op, ast.NotEq))]
     if isinstance(op, (ast.Eq, ast.NotEq)):
         pos = isinstance(op, ast.Eq)
         return [(s, r if isinstance(r, Raised) else (r == pos)) for (s, r) in equals(I, st, a, b, frame)]
@@ -636,6 +670,11 @@ def contains(I, st, container, item, frame, node=None):
             if not rest:
                 return [(s, False)]
             res = []
+            if type(rest[0]).__name__ == 'Opt':
+                from .loops import PSTATUS
+                for (s2, there) in I.decide(s, rest[0].key_, PSTATUS, rest[0].allowed):
+                    res.extend(rec(s2, ((rest[0].value,) if there else ()) + tuple(rest[1:])))
+                return res
             for (s2, x) in I.force(s, rest[0]):
                 for (s3, r) in equals(I, s2, item, x, frame):
                     if r:
